@@ -48,10 +48,10 @@ def run(rep):
         value_object(rep, rel, "CanonicalGraph")
         value_object(rep, rel, "CanonicalRule")
         dispatch(rep, rel)
-    relabel_morgan(rep)
-    nauty(rep)
-    value_object(rep, SG, "SynGraph")
-    value_object(rep, SRL, "SynRule")
+    rep.run(relabel_morgan)
+    rep.run(nauty)
+    rep.run(value_object, SG, "SynGraph")
+    rep.run(value_object, SRL, "SynRule")
 
 
 # ------------------------------------------------------------------ O8.1
